@@ -10,7 +10,7 @@ use proptest::prelude::*;
 use serde_json::{json, Value};
 use std::collections::HashSet;
 
-const UNIVERSE: &[&str] = &["a", "a1", "a2", "a10", "a1b", "a02", "a2b", "b", "b1", "b10", "b2", "pkg1", "pkg10", "pkg2", "x9", "x10", "x1a", "x", "A1", "A10", "a_1", "a_10", "a_2", "z9z", "z10z", "n007", "n7", "n70"];
+const UNIVERSE: &[&str] = &["a", "a1", "a2", "a10", "a1b", "a02", "a2b", "b", "b1", "b10", "b2", "pkg1", "pkg10", "pkg2", "x9", "x10", "x1a", "x", "A1", "A10", "a_1", "a_10", "a_2", "z9z", "z10z", "n007", "n7", "n70", "n18446744073709551616", "n18446744073709551617", "n99999999999999999999"];
 
 #[derive(Clone, Debug)]
 struct Param {
@@ -39,12 +39,19 @@ enum Elem {
     Compu(String, Vec<(u32, Option<String>)>),
     Ecuc(String, Vec<Cont>),
     Bsw(String, Vec<String>),
+    /// SYSTEM-SIGNAL with a LONG-NAME (L-4 items: language attribute, text) and ADMIN-DATA/SDGS/SDG (SD items: GID attribute,
+    /// text): anonymous siblings that may differ ONLY in an attribute value
+    Doc(String, Vec<(usize, usize)>, Vec<(usize, usize)>),
 }
+
+const LANGS: &[&str] = &["EN", "DE", "FR", "AA", "FOR-ALL"];
+const TEXTS: &[&str] = &["Name", "x", "y"];
+const GIDS: &[&str] = &["b", "a", "g10", "g2"];
 
 impl Elem {
     fn name(&self) -> &str {
         match self {
-            Elem::Signal(n) | Elem::ISignal(n) | Elem::Unit(n) | Elem::Compu(n, _) | Elem::Ecuc(n, _) | Elem::Bsw(n, _) => n,
+            Elem::Signal(n) | Elem::ISignal(n) | Elem::Unit(n) | Elem::Compu(n, _) | Elem::Ecuc(n, _) | Elem::Bsw(n, _) | Elem::Doc(n, _, _) => n,
         }
     }
 }
@@ -108,7 +115,22 @@ pub fn gen_doc(tape: &[u32]) -> SortDoc {
         let en = names(&mut t, ne);
         let mut elems = vec![];
         for n in en {
-            let e = match t.below(8) {
+            let e = match t.below(9) {
+                8 => {
+                    // pairwise different (attribute, text) pairs; equal texts with different attributes are the point
+                    let mut l4: Vec<(usize, usize)> = (0..t.below(5)).map(|_| (t.below(LANGS.len()), t.below(2))).collect();
+                    l4.sort();
+                    l4.dedup();
+                    // one entry per language (L-4 of one language twice is not meaningful)
+                    l4.dedup_by_key(|x| x.0);
+                    let mut sd: Vec<(usize, usize)> = (0..t.below(5)).map(|_| (t.below(GIDS.len()), t.below(2))).collect();
+                    sd.sort();
+                    sd.dedup();
+                    let mut sm = SplitMix(t.below(1 << 16) as u64);
+                    permute(&mut l4, &mut sm);
+                    permute(&mut sd, &mut sm);
+                    Elem::Doc(n, l4, sd)
+                }
                 0 | 1 => Elem::Signal(n),
                 2 => Elem::ISignal(n),
                 3 => Elem::Unit(n),
@@ -170,6 +192,8 @@ pub struct Ordered {
     subcontainers: bool,
     params: bool,
     annotations: bool,
+    long_name: bool,
+    sdg: bool,
 }
 
 pub fn ordered_flags() -> Ordered {
@@ -179,6 +203,7 @@ pub fn ordered_flags() -> Ordered {
             pkgs: vec![Pkg {
                 name: "p".into(),
                 elems: vec![
+                    Elem::Doc("d".into(), vec![(0, 0)], vec![(0, 0)]),
                     Elem::Compu("c".into(), vec![(0, None)]),
                     Elem::Ecuc("e".into(), vec![Cont { name: "k".into(), index: None, defref: "/d".into(), params: vec![Param { defref: "/d/p".into(), index: None, value: 1, textual: false, annotations: vec!["o".into()] }], subs: vec![Cont { name: "s".into(), index: None, defref: "/d".into(), params: vec![], subs: vec![] }] }]),
                 ],
@@ -194,6 +219,8 @@ pub fn ordered_flags() -> Ordered {
             subcontainers: ord(ElementName::SubContainers),
             params: ord(ElementName::ParameterValues),
             annotations: ord(ElementName::Annotations),
+            long_name: ord(ElementName::LongName),
+            sdg: ord(ElementName::Sdg),
         }
     })
 }
@@ -235,6 +262,14 @@ pub fn permuted(d: &SortDoc, seed: u64) -> (SortDoc, bool) {
                 Elem::Compu(_, scales) => {
                     if !o.scales {
                         ch |= permute(scales, &mut sm)
+                    }
+                }
+                Elem::Doc(_, l4, sd) => {
+                    if !o.long_name {
+                        ch |= permute(l4, &mut sm);
+                    }
+                    if !o.sdg {
+                        ch |= permute(sd, &mut sm);
                     }
                 }
                 Elem::Ecuc(_, conts) => {
@@ -334,6 +369,26 @@ pub fn build(d: &SortDoc) -> R<(AutosarModel, ArxmlFile)> {
                         let cs = mc.create_sub_element(ElementName::Containers)?;
                         for c in conts {
                             build_cont(&cs, c)?;
+                        }
+                    }
+                }
+                Elem::Doc(n, l4, sd) => {
+                    let sg = els.create_named_sub_element(ElementName::SystemSignal, n)?;
+                    if !l4.is_empty() {
+                        let ln = sg.create_sub_element(ElementName::LongName)?;
+                        for (lang, text) in l4 {
+                            let l = ln.create_sub_element(ElementName::L4)?;
+                            l.set_attribute_string(AttributeName::L, LANGS[*lang])?;
+                            l.insert_character_content_item(TEXTS[*text], 0)?;
+                        }
+                    }
+                    if !sd.is_empty() {
+                        let g = sg.create_sub_element(ElementName::AdminData)?.create_sub_element(ElementName::Sdgs)?.create_sub_element(ElementName::Sdg)?;
+                        g.set_attribute_string(AttributeName::Gid, "grp")?;
+                        for (gid, text) in sd {
+                            let x = g.create_sub_element(ElementName::Sd)?;
+                            x.set_attribute_string(AttributeName::Gid, GIDS[*gid])?;
+                            x.set_character_data(TEXTS[*text].to_string())?;
                         }
                     }
                 }
